@@ -37,6 +37,7 @@ UNIT = Unit(
         Fn(S, "root_hash", impl="CoinMapping", home="C07", implicit_props=("C09",),
            ensures=[C("root", "res == HashVal(novasmt::root_of(self.inner@))", "C07")]),
         Fn(S, "inner", impl="CoinMapping", home="C20", implicit_props=("C09",), ensures=[C("is", "*res == self.inner", "C20")]),
+        Fn(S, "new", impl="CoinMapping", home="C07", implicit_props=("C09",), ensures=[C("wraps", "res.inner == inner", "C07", "C08")]),
         Fn("src/state.rs", "apply_tip_906_for_next_state", impl="SealedState", wrap="impl<C: ContentAddrStore> CoinMapping<C>", home="C20", implicit_props=("C09", "C20"),
            sig_subst=[("next_state: &mut UnsealedState<C>", "coins: &mut CoinMapping<C>")],
            rewrites=[("FIELDPARAM", "next_state", "coins"), ("R8",)],
